@@ -228,7 +228,10 @@ impl<'req, B: FromBody<'req>> FromRequest<'req> for B {
             Response::BadRequest().with_text(msg.to_string())
         }
 
-        if req.headers.ContentType()?.starts_with(B::MIME_TYPE) {
+        /* compare the media type itself, not a prefix of the header: `application/jsonx` is not `application/json` */
+        let content_type = req.headers.ContentType()?;
+        let media_type = content_type.split(';').next().unwrap_or(content_type).trim();
+        if media_type.eq_ignore_ascii_case(B::MIME_TYPE) {
             Some(B::from_body(req.payload()?).map_err(reject))
         } else {
             None
